@@ -143,6 +143,10 @@ func boolTableOn(c *Ctx, rule, key string, fn *ssa.Function, paths []*DPath, nam
 			}
 			reps[i] = rr
 		}
+		if strings.HasPrefix(names[k], "lenK") {
+			// (IsMultiSigOut) a term the table keeps at zero: one representative
+			reps[i] = []*big.Int{big.NewInt(0)}
+		}
 		total *= len(reps[i])
 	}
 	if total > 400000 {
@@ -823,6 +827,7 @@ func ruleTTmplMultisig(c *Ctx) {
 	pen := parts + "[(" + n + " - 2)]"
 	last := parts + "[(" + n + " - 1)]"
 	callRe := regexp.MustCompile(`^bscript\.isSmallIntOp@\d+\((.*)\)$`)
+	keyLens := map[string]string{}
 	namer := func(k string) string {
 		switch k {
 		case n:
@@ -846,9 +851,22 @@ func ruleTTmplMultisig(c *Ctx) {
 				return "smM"
 			}
 		}
+		// the length of a key the scan looks at, however the scan spells the element: only with more than
+		// three parts (kept at zero in this table)
+		if strings.HasPrefix(k, "len("+parts+"[") {
+			if _, seen := keyLens[k]; !seen {
+				keyLens[k] = fmt.Sprintf("lenK%d", len(keyLens)+1)
+			}
+			return keyLens[k]
+		}
 		return ""
 	}
 	consistent := func(m map[string]int64) bool {
+		for name, v := range m {
+			if strings.HasPrefix(name, "lenK") && v != 0 {
+				return false
+			}
+		}
 		if m["lenparts"] > 3 || m["lenK"] != 0 {
 			return false // the scan of the keys runs: outside this table
 		}
